@@ -1287,11 +1287,13 @@ impl SourceBuf {
             return Ok(false);
         }
 
-        let (sym, sym_end) =
-            match Symbol::from_slice_index(&self.buf, sym_end) {
-                Ok(Some(some)) => some,
-                _ => return Ok(false),
-            };
+        // The marker must be the whole token. Only look at the symbol
+        // following it, don’t skip over it: it may be a line feed or a
+        // parenthesis which `next_item` needs to see.
+        let (sym, _) = match Symbol::from_slice_index(&self.buf, sym_end) {
+            Ok(Some(some)) => some,
+            _ => return Ok(false),
+        };
         if sym.is_word_char() {
             return Ok(false);
         }
